@@ -173,6 +173,10 @@ class Term:
     def resolved(self):
         return self.j.get("res")
 
+    @property
+    def callee_cid(self):
+        return self.func.const.get("cid") if self.func is not None and self.func.const else None
+
     def generic_idx(self):
         return self.func.const.get("g", []) if self.func is not None and self.func.const else []
 
@@ -227,6 +231,7 @@ class Fn:
     def __init__(self, j, crate, form):
         self.j = j
         self.id = j["id"]
+        self.cid = j.get("cid")
         self.kind = j["kind"]
         self.parent = j.get("parent")
         self.root = j.get("root", self.id)
@@ -598,6 +603,11 @@ class Facts:
         for c in self.crates.values():
             self.P.update(c.P)
             self.E.update(c.E)
+        self.by_cid = {"P": {}, "E": {}}
+        for form, tab in (("P", self.P), ("E", self.E)):
+            for f in tab.values():
+                if f.cid:
+                    self.by_cid[form][f.cid] = f
         self._short = {"P": defaultdict(list), "E": defaultdict(list)}
         for form, tab in (("P", self.P), ("E", self.E)):
             for fid, f in tab.items():
@@ -640,6 +650,11 @@ class Facts:
             raise AnchorMissing("method `%s` of `%s`%s not found (matches: %d) in %s-form facts" % (
                 name, self_adt, " as " + trait if trait else "", len(out), form))
         return out[0]
+
+    def callee_fn(self, term, form="P"):
+        """the analysed body of a direct callee (exact, via the canonical definition path), or None"""
+        cid = term.callee_cid
+        return self.by_cid[form].get(cid) if cid else None
 
     def fn_opt(self, short, form="P"):
         try:
